@@ -42,7 +42,8 @@ def run(tier, pid='C08'):
     rnd = random.Random(common.seed() * 104729 + 5)
     ntr = acc = 0
     nh, ln = (40, 60) if tier == 'quick' else (250, 200)
-    zones6 = ["America/Los_Angeles", "Europe/London", "Australia/Sydney", "America/Sao_Paulo", "Asia/Tokyo", "Africa/Johannesburg", "Pacific/Auckland"]
+    # (the third zone ends in an era without rules: a year cache that is never rebuilt for later years would still be "right" inside the range)
+    zones6 = ["America/Los_Angeles", "Europe/London", "Asia/Kolkata", "Australia/Sydney", "America/Sao_Paulo", "Asia/Tokyo", "Africa/Johannesburg", "Pacific/Auckland"]
     for kind in ('extended', 'basic'):
         zs = [z for z in zones6 if z in zidx[kind]]
         for k in (1, 2, 3, 4):
@@ -57,14 +58,14 @@ def run(tier, pid='C08'):
             if kind == 'extended' and k == 2:
                 chk.sample({'random_history_prefix': [(c['h']['kind'], c['h']['zone'], c['op'], c['arg']) for c in hs[0][:6]]})
     # all ordered pairs of cached-year states, every zone of both databases: the edge Query(B) from "cached = A" of ZoneProc
-    # (HistoryIndependent) instantiated for every zone x every (A, B) in 2000..2049 (+ out-of-range A); table and answers
+    # (HistoryIndependent) instantiated for every zone x every (A, B) in 2000..2052 (+ far out-of-range A); table and answers
     # of the long-lived processor against a never-used one in zero-filled memory
     pd = common.build_binary('pairdrv', ['pairdrv.cpp'], 'opt')
     npairs = npc = 0
     step = 5 if tier == 'quick' else 1
 
     def prun(a):
-        rc, out_, err, _ = common.run_cmd([pd, a[0], str(a[1]), str(a[2]), '2000', '2049', str(step)], timeout=6000)
+        rc, out_, err, _ = common.run_cmd([pd, a[0], str(a[1]), str(a[2]), '2000', '2052', str(step)], timeout=6000)
         return a, rc, out_, err
     import json as _json
     jobs = [(kind, i, min(i + 8, len(zidx[kind]))) for kind in ('extended', 'basic') for i in range(0, len(zidx[kind]), 8)]
@@ -95,6 +96,6 @@ def run(tier, pid='C08'):
     chk.add(python_zone_specifier_calls=pyn)
     chk.add(states=st, transitions=tr, traces_validated_against_impl=ntr + nscripts, model_edges_replayed=nscripts,
             random_histories=ntr, random_histories_accepted=acc, real_calls_compared_with_fresh_time_zone=nsteps,
-            rule='every transition of the ZoneProc model graph (configs %s) replayed in the ASan+UBSan build of the real classes for Basic and Extended; seeded random histories (K=1..4, 3-6 zones, in/out-of-range and Jan-1 arguments) validated by ZoneProc_Trace; every zone of zonedb/zonedbx x every ordered pair of years 2000..2049 (+ out-of-range years): per-year table and answers vs a never-used processor' % [c[0] for c in configs])
+            rule='every transition of the ZoneProc model graph (configs %s) replayed in the ASan+UBSan build of the real classes for Basic and Extended; seeded random histories (K=1..4, 3-6 zones, in/out-of-range and Jan-1 arguments) validated by ZoneProc_Trace; every zone of zonedb/zonedbx x every ordered pair of years 2000..2052 (the last ones outside the zone data; + far out-of-range years as the first of the pair): per-year table and answers vs a never-used processor' % [c[0] for c in configs])
     chk.assume('hostshim; private state read with a "#define private public" include in the driver only; sanitizers (ASan, UBSan) as monitors for crashes and undefined behaviour')
     return chk.finish()
